@@ -90,7 +90,14 @@ def run(pid, rep, n_cases, plies):
     corr_fail = []
     for ci, case in enumerate(cases):
         for oi, op in enumerate(case):
-            a, b = project(pid, op, rust[ci][oi]), project(pid, op, lean[ci][oi])
+            ra, la = rust[ci][oi], lean[ci][oi]
+            if pid not in ("C02", "C03") and op == "obs" and ra and la and "|" in ra[0] and "|" in la[0] \
+                    and core.fen4(ra[0].split("|")[0]) != core.fen4(la[0].split("|")[0]):
+                # model and implementation are no longer at the same position: which position a move
+                # leads to is C02's abstraction, not this property's — stop comparing this case
+                stats["cases_diverged_in_position"] += 1
+                break
+            a, b = project(pid, op, ra), project(pid, op, la)
             stats["ops_compared"] += 1
             if a != b:
                 corr_fail.append((ci, oi, a, b))
@@ -121,7 +128,7 @@ def run(pid, rep, n_cases, plies):
                 if pid == "C11":
                     q("spec_class " + fen); q("spec_render " + f4)
                 last_fen = f4
-            if name in ("pushbias", "push") and ":" in out[0] and last_fen and pid in ("C02", "C11"):
+            if name in ("pushbias", "push") and ":" in out[0] and last_fen and pid in ("C02",):
                 q("spec_play %s %s" % (out[0].split(":")[0], last_fen))
     qlines = list(queries)
     chunk = 200
@@ -144,11 +151,41 @@ def run(pid, rep, n_cases, plies):
         rep.violation("model-vs-impl", f"correspondence:{pid}:walk {cases[ci][oi].split(' ')[0]}",
                       f"first differing op #{oi} `{cases[ci][oi]}` impl={a} model={b} ({len(corr_fail)} cases differ)",
                       replay_ops=cases[ci][: oi + 1], no_input=True)
+    if pid == "C11":
+        reimport_check(rep, cases, rust, stats)
     stats["cases"] = len(cases)
     stats["corpus_cases"] = len(corpus)
     stats["distinct_positions"] = len(positions)
     stats["correspondence_failures"] = len(corr_fail)
     return stats, kinds, cases
+
+
+def reimport_check(rep, cases, rust, stats):
+    """C11: importing the exported text yields a game with the same position text, hash and legal moves"""
+    seen = {}
+    for case, outs in zip(cases, rust):
+        for oi, op in enumerate(case):
+            o = outs[oi]
+            if op == "obs" and o and "|" in o[0] and oi + 1 < len(case) and case[oi + 1] == "moves c" and outs[oi + 1]:
+                f = o[0].split("|")
+                # only positions of the game line (nested search positions may be unreachable by legal play)
+                seen.setdefault(f[0], (f[1], outs[oi + 1][0]))
+    fens = list(seen)[:4000]
+    rc = [["new " + f, "obs", "moves c"] for f in fens]
+    out, _ = core.run_rust(rc)
+    for f, o in zip(fens, out):
+        stats["reimports_checked"] += 1
+        h, ml = seen[f]
+        if o[0] != ["ok"]:
+            # the reader refuses positions that are not backed by the board / impossible material; a position
+            # reached by legal play from a sane root is never one of those
+            if all(x.isdigit() or x in "/" or x in "pnbrqkPNBRQK" for x in f.split()[0]):
+                stats["reimports_refused"] += 1
+            continue
+        g = o[1][0].split("|") if o[1] and "|" in o[1][0] else None
+        if g is None or core.fen4(g[0]) != core.fen4(f) or g[1] != h or (o[2] and o[2][0] != ml):
+            rep.violation("impl-vs-spec", f"re-import of the exported FEN gives a different game @ {f}",
+                          f"exported hash {h} moves {ml[:60]}; re-imported {o[1]} {str(o[2])[:80]}", replay_ops=["new " + f, "obs", "moves c"])
 
 
 def load_corpus(pid):
@@ -247,7 +284,7 @@ def analyze_case(pid, case, outs, queries, stats, kinds, positions):
                         return oi, f"score is not the piece-square sum;fen {f4} phase {'end' if eg else 'middle'} engine {f[2]} spec {exp}"
                     # remember the low-material test of this position for the next push_history
                     lists["low"] = (lowm, lowe)
-            if pid in ("C02", "C11") and pending in ("push", "hist") and prev_f4 and last_move:
+            if pid in ("C02",) and pending in ("push", "hist") and prev_f4 and last_move:
                 sp = queries.get("spec_play %s %s" % (last_move, prev_f4))
                 stats["successors_checked"] += 1
                 if sp != f4:
